@@ -50,6 +50,7 @@ type Config struct {
 	Horizon    time.Duration // simulated idle time after which OnIdle is consulted
 	KeepLog    bool
 	CondRandom bool // Signal wakes a tape-chosen waiter instead of the oldest
+	YieldAfterUnlock bool // Unlock/RUnlock are scheduling points too: a goroutine can be preempted right after releasing a lock (exposes code that relies on nothing happening between an unlock and the next statement)
 	PoolPolicy int  // see pool.go
 	MapPolicy  int  // see maprange.go
 	PCTChanges int
